@@ -164,6 +164,8 @@ def run_history(ctx, rng, script=None):
                                 rng.choice([None, None, None, 1, 2, -1, 3])])
                 elif op in ('fixed', 'resize'):
                     rec.append(rng.randint(0, la + 3) if rng.random() < 0.7 else la)
+                    if rng.random() < 0.01:
+                        rec[-1] = la + rng.choice([65536, 65537, 70000, 131073])    # (a very wide field)
                 elif op == 'fmt':
                     fill = rng.choice(['', '', '*', '0', ' ', '<', 'x', '-', '.', '.', ',', '\n', '\t', '\x00'])
                     al = rng.choice(['<', '>', '^']) if fill else rng.choice(['', '<', '>', '^'])
@@ -462,7 +464,8 @@ def run_history(ctx, rng, script=None):
                         fail("empty-texts-compare-unequal", {"op": rec, "other": type(empty).__name__})
             if mr and canon == CHText(text + "~"):
                 fail("different-texts-compare-equal", {"op": rec})
-            pool.append((r, mr))
+            if len(mr) <= 5000:
+                pool.append((r, mr))      # (the very wide ones are checked and dropped: they would slow down every later step)
     except Stop:
         pass
     if nontrivial:
